@@ -30,6 +30,8 @@ func __forall(lo, hi int, f func(int) bool) bool         { return true }
 func __exists(lo, hi int, f func(int) bool) bool         { return true }
 func __fresh(x any) bool                                 { return true }
 func __elems(x any) any                                  { return x }
+func __replaytext(x []rune)                              {}
+func __samefn(a, b any) bool                             { return true }
 `
 }
 
@@ -190,6 +192,9 @@ func buildOverlay(pkgDir string) (*OverlayResult, error) {
 					ds = append(ds, fmt.Sprintf("func() int { return int(%s) }", specToGo(d, resultName)))
 				}
 				fmt.Fprintf(&sb, " __decreases(%s);", strings.Join(ds, ", "))
+			}
+			if rt := c.Flags["replaytext"]; rt != "" {
+				fmt.Fprintf(&sb, " __replaytext(%s);", rt)
 			}
 			for _, k := range sortedKeys(c.Flags) {
 				fmt.Fprintf(&sb, " __flag(%q, %q);", k, c.Flags[k])
